@@ -586,6 +586,8 @@ pub struct GenCfg {
     pub allow_codec_skip: bool,
     /// few names, sibling names Foo/Foo1/Foo11
     pub hostile_names: bool,
+    /// `Cow` around user-defined types
+    pub cow_def: bool,
     pub docs: bool,
 }
 
@@ -611,6 +613,7 @@ impl Default for GenCfg {
             compact_unit: false,
             allow_codec_skip: true,
             hostile_names: false,
+            cow_def: true,
             docs: true,
         }
     }
@@ -716,10 +719,12 @@ impl<'r, R: Rng> ProgGen<'r, R> {
             6 | 7 => Ty::Option(self.gen_ty(cx, d, heap).b()),
             8 => Ty::Result(self.gen_ty(cx, d, heap).b(), self.gen_ty(cx, d, heap).b()),
             9 => Ty::Box(self.gen_ty(cx, d, true).b()),
-            10 => match self.rng.gen_range(0..3) {
+            10 => match self.rng.gen_range(0..if self.cfg.cow_def { 5 } else { 3 }) {
                 0 => Ty::CowStr,
                 1 => Ty::Cow(Ty::Prim(self.prim()).b()),
-                _ => Ty::Cow(Ty::Vec(Ty::Prim(self.prim()).b()).b()),
+                2 => Ty::Cow(Ty::Vec(Ty::Prim(self.prim()).b()).b()),
+                // `Cow<'static, Foo<..>>` (needs `Foo: Clone` in real source, hence not in compiled corpora)
+                _ => Ty::Cow(self.gen_def_ref(cx, d, false).b()),
             },
             11 => Ty::BTreeMap(self.simple_closed(true).b(), self.gen_ty(cx, d, true).b()),
             12 => Ty::BTreeSet(self.simple_closed(true).b()),
